@@ -112,6 +112,12 @@ theorem C16_get_safe (m : Msg) (n : Nat) (dst : D) (length nul idx : Nat) :
 
 example : (7 : Nat) + 1 ≤ 8 := by decide
 
+/-- **C16_get_size_query.** With a destination of size 0 (`GetVarStr` used as a size query: it then reports the
+bytes the string needs in `StrBufSize`) nothing at all is written, for any payload. -/
+theorem C16_get_size_query (m : Msg) (dst : D) (nul idx : Nat) :
+    ∃ r sz idx', getVarStr m 0 dst nul idx = .ok (r, sz, idx', dst) :=
+  getVarStr_zero m dst nul idx
+
 /-- Why the unsized `GetStr` needs `Length+1` bytes: with exactly `Length` bytes it writes one byte too far. -/
 theorem C16_getStr1_contract_witness :
     (getStr1 ⟨fun _ => 0x41, 3⟩ 2 (fun _ => 1) 2 0).toOption.isNone = true ∧
